@@ -340,13 +340,21 @@ def plan_C10(tier, seed):
         exhaustive=True, assumptions=["TLC", "Go runtime recover() / deadline as the observation of panics and hangs"])
 
 
-def infer_plan(prefix, tier, kinds, rule, fams=("T", "S", "X")):
+def infer_plan(prefix, tier, kinds, rule, fams=("T", "S", "X"), legacy=False):
     k = 1 if tier == "quick" else 2
-    jobs = [tlc("%s_%s" % (prefix, f), "MC_Infer", {"Family": q(f), "K": k, "CheckKnown": "FALSE"}, ["Sound", "SpecEq", "Emit"], workers=6)
-            for f in fams]
+    jobs = [tlc("%s_%s" % (prefix, f), "MC_Infer", {"Family": q(f), "K": k, "CheckKnown": "FALSE", "LegacyNull": "FALSE"},
+                ["Sound", "SpecEq", "Emit"], workers=6) for f in fams]
+    replay = [dict(name=prefix + "_replay", family="infer", inputs=[j["name"] for j in jobs], codegen=True, kinds=kinds)]
+    if legacy:
+        lj = [tlc("%s_%s_legacy" % (prefix, f), "MC_Infer", {"Family": q(f), "K": k, "CheckKnown": "FALSE", "LegacyNull": "TRUE"},
+                  ["SpecEq", "Emit"], workers=4) for f in ("T", "S")]
+        jobs += lj
+        replay.append(dict(name=prefix + "_legacy", family="infer", inputs=[j["name"] for j in lj], codegen=True,
+                           kinds=["inferred-schema", "for-nondeterministic", "for-shares-nodes", "for-error"],
+                           env={"JSONSCHEMAGODEBUG": "typeschemasnull=1"}))
     return dict(
         tlc=jobs, parallel=3,
-        replay=[dict(name=prefix + "_replay", family="infer", inputs=[j["name"] for j in jobs], codegen=True, kinds=kinds)],
+        replay=replay,
         rule=rule, exhaustive=True,
         assumptions=["TLC", "generated Go source for the enumerated types (harness gentypes)", "encoding/json as the encoder/decoder",
                      "GoTypes.tla's model of encoding/json is compared with the real json.Marshal on every value (mismatch = exit 2)"])
@@ -386,8 +394,11 @@ def plan_C16(tier, seed):
                       "slices, maps and nested structs (error, never a hang); a named type occurring several times (no false cycle); "
                       "TypeSchemas entries with a type, with several types and without type, at field / pointer / slice / map "
                       "positions and for structs embedded by value and by pointer: expected result from Infer.tla!InferOpt; results "
-                      "share no Schema object with the entries, which stay unchanged when a result is scribbled over",
-                      fams=("T", "S", "X", "O"))
+                      "share no Schema object with the entries, which stay unchanged when a result is scribbled over"
+                      ". Configuration JSONSCHEMAGODEBUG=typeschemasnull=1: families T and S replayed in a child process with the "
+                      "variable set against InferSpec with LegacyNull (slices not nullable, no null for pointers to std types, "
+                      "big.Int nullable)",
+                      fams=("T", "S", "X", "O"), legacy=True)
 
 
 PLANS = {"C04": plan_C04, "C09": plan_C09, "C16": plan_C16, "C10": plan_C10, "C13": plan_C13, "C14": plan_C14, "C20": plan_C20, "C15": plan_C15, "C05": plan_C05, "C18": plan_C18, "C19": plan_C19, "C17": plan_C17, "C08": plan_C08, "C11": plan_C11, "C12": plan_C12, "C03": plan_C03, "C06": plan_C06, "C01": plan_C01, "C02": plan_C02, "C07": plan_C07}
